@@ -53,6 +53,8 @@ def _to_int(position: str) -> int:
         ValueError: If the input position format is invalid.
     """
     try:
+        if not (position.isascii() and position.isdigit()):
+            raise ValueError("not a decimal number")
         return int(position)
     except ValueError as e:
         raise ValueError("Invalid pauli string: position must be a number") from e
